@@ -1843,8 +1843,8 @@ def run(ctx):
     if thorough:
         plan = [
             dict(na=2, ncmax=5, nit=3, depth=9, full=True, kinds=KINDS, label="na2"),
-            dict(na=1, ncmax=4, nit=2, depth=8, full=True, kinds=KINDS, label="na1"),
-            dict(na=3, ncmax=4, nit=2, depth=8, full=True, kinds=KINDS, label="na3"),
+            dict(na=1, ncmax=4, nit=2, depth=7, full=True, kinds=KINDS, label="na1"),
+            dict(na=3, ncmax=4, nit=2, depth=7, full=True, kinds=KINDS, label="na3"),
         ]
     else:
         plan = [
